@@ -53,5 +53,13 @@ def obligations(tier: str) -> list[Ob]:
             stubs=["names from pools; the raw-fallback classes C09-F5/F6 are assumed away (recorded under C09)"],
         )
     )
+    obs.append(
+        harness_ob(
+            "sibling_imports_defined", "C01_imports.py", tier, timeout=240 if q else 900, cpus=1, replay_func="vlib.props.C01:replay",
+            encoded=["openapi_python_client.parser.properties.literal_enum_property:LiteralEnumProperty.get_imports", "openapi_python_client.parser.properties.enum_property:EnumProperty.get_imports", "openapi_python_client.parser.properties.model_property:ModelProperty.get_lazy_imports", "openapi_python_client.parser.properties.schemas:Class.from_string"],
+            stubs=["class names from a pool that contains builtins/keywords (Type, List, Class, Format) and class_overrides with class and/or module names"],
+            bounds={"names": 7, "kinds": "str enum / int enum / model", "overrides": 4, "enum style": "both"},
+        )
+    )
     obs.append(Ob("replay_importable_packages", "vlib.replay_checks:importable", {}, timeout_s=1500 if q else 5000, engine="replay", cpus=2))
     return obs
